@@ -1,14 +1,14 @@
 SPECIFICATION Spec
 CONSTANTS
-  NG = 3
+  NG = 2
   NO = 2
-  ND = 4
+  ND = 3
   NP = 2
   Names = {"a", "b"}
   Vals = {1, 2}
   Acts = {"CreateGroup", "CreateObject", "AddData", "AddToGroup", "Copy", "SetVal", "SetMeta", "Rename", "Close", "Open", "SetFlag", "Move"}
   Deviations = {"CloseKeepsOrphans"}
-  MaxDepth = 6
+  MaxDepth = 5
 CONSTRAINT DepthBound
 VIEW vw
 INVARIANT TypeOK
